@@ -341,7 +341,7 @@ func c08State(rep *report.Report, w *c08World, ops []explore.Op, bodies [][]int,
 		}
 		// precommit-*: the transaction is rejected by a failing pre-commit action (alone / followed by a
 		// succeeding one); precommit-ok: two succeeding pre-commit actions, the transaction commits
-		modes := []string{"commit", "caller-error", "precommit-F", "precommit-FS", "precommit-ok"}
+		modes := []string{"commit", "caller-error", "precommit-F", "precommit-FS", "precommit-fQ", "precommit-ok"}
 		if bi%25 == 0 {
 			modes = append(modes, "batch")
 		}
@@ -359,6 +359,15 @@ func c08State(rep *report.Report, w *c08World, ops []explore.Op, bodies [][]int,
 				case "precommit-FS":
 					ctx.AddPreCommitAction(func(boltz.MutateContext) error { return errBoom })
 					ctx.AddPreCommitAction(func(boltz.MutateContext) error { return nil })
+				case "precommit-fQ": // an action that registers a succeeding action, then a failing action that registers one too
+					ctx.AddPreCommitAction(func(c boltz.MutateContext) error {
+						c.AddPreCommitAction(func(boltz.MutateContext) error { return nil })
+						return nil
+					})
+					ctx.AddPreCommitAction(func(c boltz.MutateContext) error {
+						c.AddPreCommitAction(func(boltz.MutateContext) error { return nil })
+						return errBoom
+					})
 				case "precommit-ok":
 					ctx.AddPreCommitAction(func(boltz.MutateContext) error { return nil })
 					ctx.AddPreCommitAction(func(boltz.MutateContext) error { return nil })
@@ -392,7 +401,7 @@ func c08State(rep *report.Report, w *c08World, ops []explore.Op, bodies [][]int,
 			w.mu.Lock()
 			got := append([]string{}, w.events...)
 			w.mu.Unlock()
-			committed := reject < 0 && mode != "caller-error" && mode != "precommit-F" && mode != "precommit-FS"
+			committed := reject < 0 && mode != "caller-error" && mode != "precommit-F" && mode != "precommit-FS" && mode != "precommit-fQ"
 			if committed != (err == nil) {
 				rep.Violation("C08|outcome|"+bodyName+"|"+mode, fmt.Sprintf("%s: err=%v but the reference says committed=%v", label, err, committed), replay)
 				reopen()
